@@ -1200,6 +1200,8 @@ def main():
         sig_text = sig_text.replace("\nend Gecs.Gen\n", "\n/-- reference-to-reference conversion impls of src/** (header, is the produced reference tied to the\nconsumed one by the same named lifetime?) -/\ndef refImpls : List (String × Bool) := [\n"
                                     + ",\n".join(f"  ({lean_str(r['text'])}, {'true' if r['tied'] else 'false'})" for r in ref_rows) + "\n]\n\nend Gecs.Gen\n")
         files["Sigs.lean"] = sig_text
+        import extract_steps
+        files["Steps.lean"] = extract_steps.extract_steps()
         json.dump(ref_rows, open(os.path.join(GEN, "refimpls.json"), "w"), indent=1)
         json.dump([{"item": n, "recv": r, "borrows": b} for (n, r, b) in sig_rows], open(os.path.join(GEN, "sigs.json"), "w"), indent=1)
     except (ExtractError, IndexError, ValueError, KeyError) as e:
